@@ -127,7 +127,8 @@ def featDeltasIndexMap (x : Tensor) (td dm : Nat) (concatenate : Bool) (order w 
   { shape := oshape, data := data }
 
 /-- The whole of `feat_deltas`: the argument checks (width ≥ 1, `time_dim` and `dim` in range,
-a padding the mode allows for a non-empty input), then the index map. -/
+at least one frame along `time_dim`, a padding the mode allows for that number of frames —
+whether or not the tensor has any entry), then the index map. -/
 def featDeltasSpec (x : Tensor) (dim timeDim : Int) (concatenate : Bool) (order w : Nat)
     (mode : PadMode) : Option Tensor := do
   if w < 1 then none
@@ -135,7 +136,7 @@ def featDeltasSpec (x : Tensor) (dim timeDim : Int) (concatenate : Bool) (order 
   let td ← normDim timeDim D
   let dm ← normDim dim (if concatenate then D else D + 1)
   let T := x.shape.getD td 1
-  if x.numel ≠ 0 ∧ !(padLegal mode (w * order) T) then none
+  if T = 0 ∨ !(padLegal mode (w * order) T) then none
   pure (featDeltasIndexMap x td dm concatenate order w mode)
 
 /-! ## Returns -/
